@@ -27,7 +27,11 @@ type c13Cfg struct {
 	Files map[string]string `json:"files,omitempty"`
 }
 
-var c13Strings = []string{"abc", "a.c", "evil", "x1", "Xb.d", "a(b"}
+var c13Strings = []string{"abc", "a.c", "evil", "x1", "Xb.d", "a(b", `\/abc\/{id}`}
+
+// c13Alias: configurations of these strings take part in the same runs (the
+// second is what a cache-key slip in another role of the first would collide with)
+var c13Alias = map[string]string{"abc": `\/abc\/{id}`, `\/abc\/{id}`: "abc"}
 
 type c13Role struct {
 	name     string
@@ -142,7 +146,7 @@ func c13Requests() []*TxScript {
 	return []*TxScript{
 		mk("q0", "/?abc=1"), mk("q1", "/?k=abc"), mk("q2", "/?k=zzz&a.c=5"), mk("q3", "/abc/77?k=qqq"),
 		mk("q4", "/?k=evil&evil=x1"), mk("q5", "/?x1=a1c&k=axc"), mk("q6", "/x1/9?axc=408"), mk("q7", "/?k=12345678-5"),
-		mkh("q8", "/?Xb1d=1&k=xb2d", "Xb3d", "v"), mkh("q9", "/Xb.d/4?xbzd=Xb.d", "xbyd", "Xb9d"), mkh("q10", "/?k=1", "abc", "evil"),
+		mkh("q8", "/?Xb1d=1&k=xb2d", "Xb3d", "v"), mkh("q9", "/Xb.d/4?xbzd=Xb.d", "xbyd", "Xb9d"), mkh("q10", "/?k=1", "abc", "evil"), mk("q11", "/abc/5?/abc/{id}=1&k=/abc/7"),
 	}
 }
 
@@ -292,7 +296,7 @@ func c13Run(w *verifrt.World, tier Tier) *RunResult {
 	s := c13Strings[t.Draw(len(c13Strings))]
 	var related []int
 	for i, c := range c13Pool {
-		if strings.Contains(c.Name, "("+s+")") {
+		if strings.Contains(c.Name, "("+s+")") || (c13Alias[s] != "" && strings.Contains(c.Name, "("+c13Alias[s]+")") && !strings.Contains(c.Name, "+")) {
 			related = append(related, i)
 		}
 	}
@@ -334,7 +338,7 @@ func c13Run(w *verifrt.World, tier Tier) *RunResult {
 			case "build":
 				h, class, detail := c13Build(&c13Pool[o.Cfg])
 				g := c13Table[o.Cfg]
-				roles := strings.NewReplacer("(abc)", "", "(a.c)", "", "(evil)", "", "(x1)", "", "(Xb.d)", "", "(a(b)", "").Replace(c13Pool[o.Cfg].Name)
+				roles := strings.NewReplacer("(abc)", "", "(a.c)", "", "(evil)", "", "(x1)", "", "(Xb.d)", "", "(a(b)", "", `(\/abc\/{id})`, "").Replace(c13Pool[o.Cfg].Name)
 				switch {
 				case class == "PANIC":
 					add("build-panic", roles, "task %d op %d: building %s panicked: %s\nconfiguration:\n%s", ti, oi, c13Pool[o.Cfg].Name, detail, c13Pool[o.Cfg].Text)
@@ -371,7 +375,7 @@ func c13Run(w *verifrt.World, tier Tier) *RunResult {
 					continue
 				}
 				if clause, detail := c05Diff(want, got); clause != "" {
-					roles := strings.NewReplacer("(abc)", "", "(a.c)", "", "(evil)", "", "(x1)", "", "(Xb.d)", "", "(a(b)", "").Replace(c13Pool[ci].Name)
+					roles := strings.NewReplacer("(abc)", "", "(a.c)", "", "(evil)", "", "(x1)", "", "(Xb.d)", "", "(a(b)", "", `(\/abc\/{id})`, "").Replace(c13Pool[ci].Name)
 					add("probe-differs", roles+"/"+clause, "task %d op %d: probe %s on %s: %s\nwith the cache compiled out: %s\nhere:                        %s\nconfiguration:\n%s", ti, oi, reqs[o.Req].URI, c13Pool[ci].Name, detail, jsonOf(want), jsonOf(got), c13Pool[ci].Text)
 				}
 			}
